@@ -526,6 +526,126 @@ def run(ctx):
             if m != "FAIL":
                 nviol += 1
     ctx.notes["declaration_model"] = {"strings": len(dstrings), "parsed_by_both": nd_ok, "rejected_by_model": nd_fail, "disagreements": nd_dis}
+    # --- (0e) COMPOSITION: the statement parser model with the all-layers expression parser model inside it (driver `body`: every `e` of
+    # Stmt.lean is produced by Expr.nary itself, at the constant-expression level after `case`) <-> the real parser on whole statements with
+    # real expressions: where an expression ends (`)` of a header, `:` of a label against `?:`, `;`, `,` in calls against the comma operator)
+    XSPELL = {"a": None, "T": "int", "PlusToken": "+", "AsteriskToken": "*", "MinusToken": "-", "EqualsToken": "=", "CommaToken": ",", "QuestionToken": "?",
+              "OpenBracketToken": "[", "CloseBracketToken": "]", "DotToken": ".", "PlusPlusToken": "++", "ExclamationToken": "!", "BarBarToken": "||",
+              "ArrowToken": "->", "MinusMinusToken": "--", "AmpersandToken": "&", "TildeToken": "~", "PlusEqualsToken": "+=", "LessThanToken": "<",
+              "LessThanLessThanToken": "<<", "AmpersandAmpersandToken": "&&", "SlashToken": "/", "EqualsEqualsToken": "==", "CaretToken": "^", "BarToken": "|",
+              "PercentToken": "%", "LessThanEqualsToken": "<=", "ExclamationEqualsToken": "!="}
+    XBIN = ["PlusToken", "AsteriskToken", "MinusToken", "EqualsToken", "CommaToken", "BarBarToken", "PlusEqualsToken", "LessThanToken", "LessThanLessThanToken",
+            "AmpersandAmpersandToken", "SlashToken", "EqualsEqualsToken", "CaretToken", "BarToken", "PercentToken", "LessThanEqualsToken", "ExclamationEqualsToken", "AmpersandToken"]
+
+    def gen_x(d):
+        if d <= 0 or rng.random() < 0.25:
+            return ["a"]
+        k = rng.randrange(13)
+        sub = lambda: gen_x(d - 1)
+        if k <= 3: return sub() + [rng.choice(XBIN)] + sub()
+        if k == 4: return sub() + ["QuestionToken"] + sub() + [":"] + sub()
+        if k == 5: return [rng.choice(["ExclamationToken", "MinusToken", "PlusPlusToken", "AsteriskToken", "AmpersandToken", "TildeToken", "MinusMinusToken", "PlusToken"])] + sub()
+        if k == 6: return sub() + [rng.choice(["PlusPlusToken", "MinusMinusToken"])]
+        if k == 7: return ["(", "T", ")"] + sub()
+        if k == 8: return sub() + ["OpenBracketToken"] + sub() + ["CloseBracketToken"]
+        if k == 9: return sub() + [rng.choice(["DotToken", "ArrowToken"]), "a"]
+        if k == 10:
+            args = [sub() for _ in range(rng.randrange(0, 4))]
+            return sub() + ["("] + [x for j, a_ in enumerate(args) for x in (["CommaToken"] if j else []) + a_] + [")"]
+        if k == 11: return sub() + ["QuestionToken", ":"] + sub()
+        return ["("] + sub() + [")"]
+
+    def gen_body(d):
+        x = lambda: gen_x(rng.choice([0, 1, 1, 2, 3]))
+        k = rng.randrange(20) if d > 0 else rng.randrange(8)
+        sub = lambda: gen_body(d - 1)
+        if k == 0: return x() + [";"]
+        if k == 1: return [";"]
+        if k == 2: return ["d"]
+        if k == 3: return ["goto", "L", ";"]
+        if k == 4: return ["continue", ";"]
+        if k == 5: return ["break", ";"]
+        if k == 6: return ["return", ";"]
+        if k == 7: return ["return"] + x() + [";"]
+        if k == 8: return ["{"] + [t for _ in range(rng.randrange(0, 4)) for t in sub()] + ["}"]
+        if k in (9, 10): return ["if", "("] + x() + [")"] + sub()
+        if k in (11, 12): return ["if", "("] + x() + [")"] + sub() + ["else"] + sub()
+        if k == 13: return ["switch", "("] + x() + [")"] + sub()
+        if k == 14: return ["case"] + x() + [":"] + sub()
+        if k == 15: return ["default", ":"] + sub()
+        if k == 16: return ["L", ":"] + sub()
+        if k == 17: return ["while", "("] + x() + [")"] + sub()
+        if k == 18: return ["do"] + sub() + ["while", "("] + x() + [")", ";"]
+        init = rng.choice([[";"], x() + [";"], ["d"]])
+        return ["for", "("] + init + rng.choice([[], x()]) + [";"] + rng.choice([[], x()]) + [")"] + sub()
+    BWORDS = list(XSPELL) + ["(", ")", ":", ";", "{", "}", "d", "L", "if", "else", "switch", "case", "default", "while", "do", "for", "goto", "continue", "break", "return"]
+    bstrings = []
+    for _ in range(4000 if ctx.quick else 60000):
+        t = gen_body(rng.choice([1, 2, 2, 3]))
+        if len(t) > 120:
+            continue
+        bstrings.append(t)
+        m_ = list(t)
+        for _ in range(rng.randrange(1, 3)):
+            j = rng.randrange(len(m_) + 1)
+            r_ = rng.random()
+            if r_ < 0.35 and m_: del m_[min(j, len(m_) - 1)]
+            elif r_ < 0.7: m_.insert(j, rng.choice(BWORDS))
+            elif m_: m_[min(j, len(m_) - 1)] = rng.choice(BWORDS)
+        if m_:
+            bstrings.append(m_)
+    XEND = ("a", ")", "CloseBracketToken", "PlusPlusToken", "MinusMinusToken")
+    bstrings = [t for t in bstrings
+                # as in the two models' own stages: a label is `L`, a type name stands between parentheses, no `&&` prefix (label address)
+                if not any(t[j] == "L" and not ((j + 1 < len(t) and t[j + 1] == ":" and not (j and t[j - 1] in ("goto", "case"))) or (j and t[j - 1] == "goto" and j + 1 < len(t) and t[j + 1] == ";")) for j in range(len(t)))
+                and not any(t[j] == "T" and not (0 < j < len(t) - 1 and t[j - 1] == "(" and t[j + 1] == ")") for j in range(len(t)))
+                and not any(t[j] == "AmpersandAmpersandToken" and (j == 0 or t[j - 1] not in XEND) for j in range(len(t)))
+                # `( T )` directly after the `(` of a header or before `{` would be a parenthesised type name / compound literal
+                and not any(t[j] == "T" and j + 2 < len(t) and t[j + 2] == "{" for j in range(len(t)))]
+    bstrings = [list(x) for x in dict.fromkeys(tuple(t) for t in bstrings)]
+
+    def render_b(toks):
+        out = []
+        for j, w in enumerate(toks):
+            if w == "a": out.append("m" if j and toks[j - 1] in ("DotToken", "ArrowToken") else rng.choice(["1", "2", "7"]))
+            elif w == "d": out.append(rng.choice(SPELL_D))
+            elif w == "L": out.append("L1")
+            else: out.append(XSPELL.get(w) or w)
+        return " ".join(out)
+    btexts = [render_b(t) for t in bstrings]
+    blines = ["2,1,0,2,%s s %s" % ("d" * 31, t.encode().hex()) for t in btexts]
+    bimpl = stages.run_harness(ctx, "tree", blines)
+    bmodel = leanb.model("body", "\n".join(" ".join(t) for t in bstrings) + "\n")
+
+    def normx(e):
+        if e[0] in ("IdentifierName", "IntegerConstantExpression"): return ("a",)
+        if e[0] == "DeclarationStatement": return ("d",)
+        return (e[0],) + tuple(normx(c) for c in e[1:])
+    nb_ok = nb_fail = nb_dis = 0
+    for t, txt, i, m, l in zip(bstrings, btexts, bimpl, bmodel, blines):
+        if i.startswith(("CRASH", "HANG")):
+            viol("crash:" + txt[:80], "parsing the statement %r: %s" % (txt, i[:200]), txt, l); continue
+        try:
+            ntok = int(i.split(" ;")[0]) - 2
+        except ValueError:
+            ntok = -1
+        diags = ",".join(x for x in i.split(" | ")[-1].split(",") if not x.startswith(CTX_IDS)) or "-"
+        full = re.search(r"N0 \w+ f1 l%d " % ntok, i) is not None
+        got = dump_to_sexpr(i) if diags == "-" and full else None
+        gs = sx(normx(got)) if got else "FAIL"
+        ms = m if m == "FAIL" else m[2:]
+        if ms == "FAIL": nb_fail += 1
+        else: nb_ok += 1
+        if gs != ms:
+            nb_dis += 1
+            derivable = m.startswith("1 ")
+            if nb_dis <= 4:
+                ctx.report(("body:" if derivable else "body-corr:") + txt[:100],
+                           "statement %r: the parser built %s, %s %s" % (txt, gs, "the grammar (statement model composed with the expression model, both proved to invert the grammar's printing) gives" if derivable else "the composed Lean models give", ms),
+                           {"component": "tree", "case": l, "impl": gs, "model": ms, "tokens": " ".join(t)}, no_input=not derivable)
+            if derivable:
+                nviol += 1
+    ctx.notes["statement_with_expressions_model"] = {"strings": len(bstrings), "parsed_by_both": nb_ok, "rejected_by_model": nb_fail, "disagreements": nb_dis}
     # --- (1) operator+ : complete translation validation
     impl_tab = stages.run_harness(ctx, "accept", ["ctxadd"])[0].strip()
     model_tab = leanb.model("stmtctx", "ctxadd\n")[0].strip()
